@@ -61,6 +61,12 @@ class Config:
                                             "A" if asserts else "N", mac, ext)
     def flags(self):
         f = ["-std=" + self.std, self.opt] + ISA_FLAGS[self.isa]
+        if self.compiler == "g++" and self.opt != "-O0":
+            # g++ 12.2's RTL dead-store elimination deletes live stores to a stack object that directly follows another one when an
+            # inlined block copy reads it through a register derived from the neighbour's one-past-the-end address (DESIGN.md 11.5:
+            # twice traced to harness thunks of the shape `Tensor A,B; ...; Tensor C = f(A,B); std::copy(C.data(),...)`).
+            # A toolchain defect, not library behaviour: the pass is switched off for every g++ build of the harness.
+            f.append("-fno-dse")
         if not self.asserts:
             f.append("-DNDEBUG")
         f += ["-D" + m for m in self.macros] + list(self.extra)
